@@ -156,6 +156,12 @@ impl Check for ControllerExt {
     fn components(&self) -> serde_json::Value {
         serde_json::json!({"real": ["examples/timelock-controller (from source): schedule_op, execute_op, cancel_op, update_delay, roles", "timelock storage", "access_control"], "stub": ["Target (call counter, scripted trap)", "Wallet"]})
     }
+    fn dup_ok(&self, _s: &Step) -> bool {
+        true
+    }
+    fn reorder_ok(&self) -> bool {
+        true
+    }
     fn generate(&self, rng: &mut Rng, tier: Tier) -> (Cfg, std::vec::Vec<Step>) {
         let nops = 3 + rng.below(5) as usize;
         let mut ops = vec![];
